@@ -67,9 +67,13 @@ def check_c02(s) -> Tuple[List[Finding], Dict[str, int]]:
                 )
             if a == 0:
                 stats["full_plug_states"] = stats.get("full_plug_states", 0) + 1
-    # vehicles on a plug type the station does not have: there is no counter to compare with, so this is
-    # outside the property's statement ("for every station and plug type"); counted for the record only
+    # vehicles *waiting* for a plug type the station does not have: there is no counter to compare with, so this is outside
+    # the property's statement ("for every station and plug type"); counted for the record only. Vehicles *charging* on a
+    # plug type the station does not have are a different matter: installed = free = 0 there, so nobody can be charging
     stats["users_of_uninstalled_plug"] = sum(n for k, n in use.items() if k not in seen_keys) + sum(n for k, n in q.items() if k not in seen_keys)
+    for (sid, c), n in sorted(use.items(), key=lambda kv: (str(kv[0][0]), str(kv[0][1]))):
+        if (sid, c) not in seen_keys and sid in s.stations:
+            out.append(("charging-on-uninstalled-plug", f"station {sid} has no {c} plug (installed 0, free 0) but {n} vehicles charge on one there", {"station": sid, "plug": c, "users": _users(s, sid, c)}))
     for b in s.bases.values():
         a, t = b.available_stalls, b.total_stalls
         if not (0 <= a <= t):
